@@ -148,6 +148,14 @@ class Models(object):
             return None
         e = Entry(k, self.E.fresh("%s[%s]?" % (d.name, _kname(k)), z3.BoolSort()),
                   SV(self.E.fresh("%s[%s]" % (d.name, _kname(k)))))
+        t = e.value.t
+        r = Val.r(t)
+        if getattr(d, "json", True):
+            # values of a decoded JSON document: scalars, dicts and lists only (tree-shaped)
+            self.E.assume(z3.Implies(Val.is_VRef(t), z3.And(z3.Or(sym.ref_kind(r) == sym.K_DICT, sym.ref_kind(r) == sym.K_LIST),
+                                                           sym.ref_len(r) >= 0)))
+        else:
+            self.E.assume(z3.Implies(Val.is_VRef(t), z3.And(sym.ref_kind(r) >= 1, sym.ref_kind(r) <= 5, sym.ref_len(r) >= 0)))
         d.entries.append(e)
         return e
 
